@@ -39,6 +39,13 @@ def run(ck: Checker, prog: Program, tier: str):
     from . import c15
     with ck.borrow(c15, "C09.R2a+"):
         ck.guard(c15.run, ck, prog, tier)
+    # "returns an identical result": every column of a smoothed spectrum is written on every path (a column left as np.empty made it
+    # holds whatever an earlier call left in memory) - kernel rules of C02
+    from . import c02
+    with ck.borrow(c02, "C09.R3+"):
+        for k in c02.LOOP_KERNELS:
+            ck.guard(c02._kernel, ck, prog, k)
+        ck.guard(c02._sg, ck, prog)
     from .common import check_identity_comparisons as _cic
     ck.guard(_cic, ck, prog, "C09.R1", "C09")
 
